@@ -819,7 +819,7 @@ pub fn check(property: &str, tier: &str, base_seed: u64, workers: usize, runs_ov
     ev.extra.insert("rustc_checked_modules".into(), json!(rustc_modules));
     ev.extra.insert("rustc_stage_wall_s".into(), json!(rustc_wall));
     ev.extra.insert("components_real".into(), json!(["typify_impl::TypeSpace (all conversion, merging, cycle breaking, finalisation, rendering, introspection)", "schemars / serde_json parsing", "syn parse of the output", "std HashMap/HashSet with SipHash keyed by the simulator"]));
-    ev.extra.insert("components_stub".into(), json!(["the client (the simulator plays the build script / progenitor)", "rustc (structural oracle instead; real rustc only in the thorough C01/C07 stage)"]));
+    ev.extra.insert("components_stub".into(), json!(["the client (the simulator plays the build script / progenitor)", "rustc: real `cargo check` only in the rustc stage of C01/C07 (rustc_checked_modules); the structural oracle stands in for it after every step"]));
     if let Err(e) = ev.write() {
         eprintln!("HARNESS: cannot write evidence: {e}");
         return CheckResult { exit_code: 2 };
